@@ -291,6 +291,16 @@ func TestC03(t *testing.T) {
 		if rapid.IntRange(0, 3).Draw(rt, "style") == 0 {
 			c.Opts = gen.Opts{Full: true}
 		}
+		// value lists written with their values grouped to the right or to the left:
+		// f:(a OR (b OR c)) and f:((a OR b) OR c) are the list a, b, c
+		if rapid.IntRange(0, 2).Draw(rt, "lstnest") == 0 {
+			c.Opts.LstNest = map[int]int{}
+			tree.Walk(func(id int, n *gen.Node) {
+				if n.K == gen.NList && len(n.Vals) >= 3 {
+					c.Opts.LstNest[id] = 1 + id%2
+				}
+			})
+		}
 		if !run("random-fragment", c) {
 			rt.Fatalf("violation")
 		}
